@@ -86,3 +86,20 @@ Fixpoint exec_loop (fs : str -> option N) (cands : list str) (last : N) : list s
 
 Definition lookup_and_exec (fs : str -> option N) (cmd : str) (path_env : option str) : list str * (str + N) :=
   exec_loop fs (candidates cmd (search_path_of cmd path_env)) ENOENT.
+
+(* allocation behaviour of the whole loop: the buffer left by one iteration is reused by the next *)
+Definition comps_of (cmd : str) (sp : option str) : list (list str) :=
+  match sp with
+  | Some p => map (fun d => [d; [slash]; cmd]) (split_path p)
+  | None => [[cmd]]
+  end.
+Fixpoint exec_allocs (v : nat * nat) (compss : list (list str)) : bool :=
+  match compss with
+  | [] => false
+  | c :: r => let '(v', a) := assemble_exe v c in a || exec_allocs v' r
+  end.
+Definition child_exec_allocs (cmd : str) (sp : option str) : bool :=
+  exec_allocs (0%nat, prealloc_capacity cmd sp) (comps_of cmd sp).
+(* the longest string (with its NUL) the loop assembles *)
+Definition longest_assembled (cmd : str) (sp : option str) : nat :=
+  fold_right (fun c m => Nat.max (length (concat c) + 1) m) 0%nat (comps_of cmd sp).
